@@ -23,6 +23,7 @@ func runC05(r *engine.Run) {
 	r.Rule("WHO-livedelete", "see C04: a node the rebuilt trie still references is never handed to deleteNode (it would be recorded dead while reachable)")
 	r.Rule("DOM-samekey", "see C04: an unchanged re-write is not reported to the change collector (its hash would enter the dead set while live)")
 	r.Rule("FRESH-deadlist", "the sync-supplied dead list the trie keeps (deleteNodes) never aliases an argument: every store into the field is nil, newly made, or an append whose base is the field itself")
+	r.Rule("WHO-deadlist", "GetDeletes reports the change collector's dead set, which AddChange reconciles when a node is re-created, together with deleteNodes, which nothing reconciles: a function that appends the elements of a slice onto deleteNodes never also hands an element of that slice to the collector (DeleteChange/AddChange, directly or via deleteNode/insertNode) - such a node would stay reported dead after a later transaction of the round re-created it")
 	r.Rule("DOM-recordwritten", "recording a round's dead nodes replaces the round's record: every return of saveDeadNodes is the result of the PutCF on the dead-nodes column family or an error that is non-nil on that path, and every return of RecordDeadNodes is the result of saveDeadNodes or such an error (no success shortcut, e.g. for an empty set, that would leave an abandoned execution's record in place)")
 	r.Rule("DEP-recordonly", "in RecordDeadNodes the record object is filled only by map stores whose keys derive from the nodes argument and is handed only to saveDeadNodes: the record of a round is exactly what this execution of the round reported (no merge with an earlier record of the same round)")
 	r.Rule("AGREE-nostamp", "see C03: mergeChanges installs the nodes of the child's change set without re-stamping them (the installer it calls in the replay loop sets no origin/version on the node): a node the child took over from another version keeps the hash the child's root refers to, and the donor store's object is not written")
@@ -31,6 +32,8 @@ func runC05(r *engine.Run) {
 	r.Rule("DOM-merge", "see C03: a stale child is never merged")
 	r.Rule("LOCK-mpt", "see C16: root, the stores' maps and level links and the collector's maps are accessed only with their owner's mutex held in the required mode (a writer under the read lock, or on a root read outside the lock, loses another writer's update)")
 	r.Rule("ORDER-critical", "see C16: Insert, Delete, MergeChanges and MergeDB are one critical section each, from the first read of the root to its last update")
+	r.Rule("AGREE-snapshot", "see C03: root, changes, deletes and start root handed to the merge come from one GetChanges call")
+	r.Rule("CLONE-deep", "see C07: Clone() of every node type is a deep copy (the codec round trip), never a value that shares path/key/value memory with the receiver - FRESH-node treats Clone() results as fresh, and an in-place append onto a shallow copy writes into the store's object")
 	r.NotDec = append(r.NotDec, "reachability of recorded nodes from later roots (graph property of runtime content)")
 	domCancel(r)
 	agreeHash(r, "DEP-origin")
@@ -42,10 +45,13 @@ func runC05(r *engine.Run) {
 	depRecordOnly(r, "DEP-recordonly")
 	domRecordWritten(r, "DOM-recordwritten")
 	freshDeadList(r, "FRESH-deadlist")
+	whoDeadList(r, "WHO-deadlist")
 	domMergeAll(r, "DOM-mergeall")
 	whoCollect(r)
 	domMerge(r)
 	mptLockDiscipline(r)
+	agreeMergeSnapshot(r, "AGREE-snapshot")
+	cloneDeep(r)
 }
 
 func domCancel(r *engine.Run) {
@@ -251,11 +257,103 @@ func domPrune(r *engine.Run) {
 		}
 	})
 	o := ord{}
-	for _, c := range append(append([]*ssa.Call{}, nodeDels...), recDels...) {
-		l := fl.Of(c.Call.Args[1])
-		r.CallSites++
-		r.Check(l&^labChan == 0, rule, o.next(fn(f)+"|"+c.Call.StaticCallee().Name()+" provenance"), r.P.Pos(c.Pos()), "deleted keys/rounds come only from forwarded dead-node records",
-			"the pruner deletes keys or rounds that do not come from a forwarded dead-node record")
+	// the node delete moved into a local closure over the pending key list
+	// (deletePending := func() error { ... MultiDeleteNode(keys) ... }): the calls of
+	// the closure are the delete sites, and what is deleted is what the enclosing
+	// function stores into the captured list
+	if len(nodeDels) == 0 {
+		for _, an := range f.AnonFuncs {
+			var del *ssa.Call
+			engine.Instrs(an, func(in ssa.Instruction) {
+				if c, ok := in.(*ssa.Call); ok && (staticCalleeIs(c, pkgUtil, "PNodeDB", "MultiDeleteNode") || staticCalleeIs(c, pkgUtil, "PNodeDB", "DeleteNode")) {
+					del = c
+				}
+			})
+			if del == nil {
+				continue
+			}
+			ld, ok := del.Call.Args[1].(*ssa.UnOp)
+			if !ok {
+				continue
+			}
+			fv, ok := ld.X.(*ssa.FreeVar)
+			if !ok {
+				continue
+			}
+			var mc *ssa.MakeClosure
+			var cell ssa.Value
+			engine.Instrs(f, func(in ssa.Instruction) {
+				m, ok := in.(*ssa.MakeClosure)
+				if !ok || m.Fn != ssa.Value(an) {
+					return
+				}
+				for i, v := range an.FreeVars {
+					if v == fv && i < len(m.Bindings) {
+						mc, cell = m, m.Bindings[i]
+					}
+				}
+			})
+			if mc == nil {
+				continue
+			}
+			// every value stored into the captured list derives from forwarded records only
+			fromChan := true
+			var okVal func(v ssa.Value, depth int) bool
+			okVal = func(v ssa.Value, depth int) bool {
+				if depth > 5 {
+					return false
+				}
+				switch x := v.(type) {
+				case *ssa.Const:
+					return x.Value == nil
+				case *ssa.MakeSlice:
+					return true
+				case *ssa.Alloc:
+					return true // make with constant capacity: a new array
+				case *ssa.Slice:
+					return okVal(x.X, depth+1)
+				case *ssa.UnOp:
+					return x.X == cell || x.X == ssa.Value(fv) // the list itself
+				case *ssa.Call:
+					if b, ok := x.Call.Value.(*ssa.Builtin); ok && b.Name() == "append" {
+						return okVal(x.Call.Args[0], depth+1) && fl.Of(x.Call.Args[1])&^labChan == 0
+					}
+				}
+				return fl.Of(v)&^labChan == 0 && fl.Of(v) != 0
+			}
+			for _, g := range []*ssa.Function{f, an} {
+				engine.Instrs(g, func(in ssa.Instruction) {
+					st, ok := in.(*ssa.Store)
+					if !ok || (st.Addr != cell && st.Addr != ssa.Value(fv)) {
+						return
+					}
+					if !okVal(st.Val, 0) {
+						fromChan = false
+					}
+				})
+			}
+			engine.Instrs(f, func(in ssa.Instruction) {
+				if c, ok := in.(*ssa.Call); ok && c.Call.Value == ssa.Value(mc) {
+					nodeDels = append(nodeDels, c)
+					r.CallSites++
+					r.Check(fromChan, rule, o.next(fn(f)+"|MultiDeleteNode provenance"), r.P.Pos(c.Pos()), "deleted keys come only from forwarded dead-node records (through the pending list the closure deletes)",
+						"the pruner deletes keys that do not come from a forwarded dead-node record")
+				}
+			})
+		}
+		for _, c := range recDels {
+			l := fl.Of(c.Call.Args[1])
+			r.CallSites++
+			r.Check(l&^labChan == 0, rule, o.next(fn(f)+"|"+c.Call.StaticCallee().Name()+" provenance"), r.P.Pos(c.Pos()), "deleted keys/rounds come only from forwarded dead-node records",
+				"the pruner deletes keys or rounds that do not come from a forwarded dead-node record")
+		}
+	} else {
+		for _, c := range append(append([]*ssa.Call{}, nodeDels...), recDels...) {
+			l := fl.Of(c.Call.Args[1])
+			r.CallSites++
+			r.Check(l&^labChan == 0, rule, o.next(fn(f)+"|"+c.Call.StaticCallee().Name()+" provenance"), r.P.Pos(c.Pos()), "deleted keys/rounds come only from forwarded dead-node records",
+				"the pruner deletes keys or rounds that do not come from a forwarded dead-node record")
+		}
 	}
 	if len(nodeDels) == 0 || len(recDels) == 0 {
 		r.Fail(rule, fn(f)+"|deletes", r.P.Pos(f.Pos()), fmt.Sprintf("pruning performs %d node deletes and %d record deletes", len(nodeDels), len(recDels)))
@@ -573,5 +671,129 @@ func freshDeadList(r *engine.Run, rule string) {
 	}
 	if n < 1 {
 		r.Anchor(rule, fmt.Errorf("unresolved anchor: no store into deleteNodes found"))
+	}
+}
+
+// whoDeadList: the trie reports two dead sets as one (GetDeletes): the change
+// collector's, which AddChange reconciles (a node that is re-created later in
+// the round is taken out again), and deleteNodes, the list a sync hands in,
+// which nothing ever reconciles. A node that goes through the collector must
+// therefore never also be parked in deleteNodes: once a later transaction of
+// the round re-creates it, the collector forgets it and the list still reports
+// it dead, so the prune deletes a node a saved root uses.
+//
+// Rule: a function that appends the elements of a slice S onto deleteNodes does
+// not also hand an element of S to a function that feeds the collector
+// (DeleteChange / AddChange, directly or through the trie's deleteNode /
+// insertNode helpers).
+func whoDeadList(r *engine.Run, rule string) {
+	feeds := map[*ssa.Function]int{} // 0 unknown, 1 yes, 2 no
+	var feedsCollector func(g *ssa.Function, depth int) bool
+	feedsCollector = func(g *ssa.Function, depth int) bool {
+		if g == nil || len(g.Blocks) == 0 || depth > 3 {
+			return false
+		}
+		if v, ok := feeds[g]; ok {
+			return v == 1
+		}
+		feeds[g] = 2
+		res := false
+		engine.Instrs(g, func(in ssa.Instruction) {
+			c, ok := in.(ssa.CallInstruction)
+			if !ok || res {
+				return
+			}
+			cc := c.Common()
+			if cc.IsInvoke() {
+				if cc.Method != nil && (cc.Method.Name() == "DeleteChange" || cc.Method.Name() == "AddChange") {
+					res = true
+				}
+				return
+			}
+			if sc := cc.StaticCallee(); sc != nil {
+				if sc.Name() == "DeleteChange" || sc.Name() == "AddChange" {
+					res = true
+					return
+				}
+				if sc.Pkg == g.Pkg && feedsCollector(sc, depth+1) {
+					res = true
+				}
+			}
+		})
+		if res {
+			feeds[g] = 1
+		}
+		return res
+	}
+	rootOf := func(v ssa.Value) ssa.Value {
+		for {
+			v = stripConv(v)
+			if s, ok := v.(*ssa.Slice); ok {
+				v = s.X
+				continue
+			}
+			return v
+		}
+	}
+	n := 0
+	for _, f := range funcsOfPkg(r, pkgUtil) {
+		if len(f.Blocks) == 0 {
+			continue
+		}
+		o := ord{}
+		engine.Instrs(f, func(in ssa.Instruction) {
+			st, ok := in.(*ssa.Store)
+			if !ok {
+				return
+			}
+			fld := engine.FieldOf(st.Addr)
+			if fld == nil || fld.Name() != "deleteNodes" {
+				return
+			}
+			ap, ok := st.Val.(*ssa.Call)
+			if !ok {
+				return
+			}
+			if b, ok := ap.Call.Value.(*ssa.Builtin); !ok || b.Name() != "append" || len(ap.Call.Args) < 2 {
+				return
+			}
+			n++
+			src := rootOf(ap.Call.Args[1])
+			var bad ssa.CallInstruction
+			engine.Instrs(f, func(in2 ssa.Instruction) {
+				c, ok := in2.(ssa.CallInstruction)
+				if !ok || bad != nil {
+					return
+				}
+				sc := c.Common().StaticCallee()
+				feedsIt := false
+				if sc != nil {
+					feedsIt = sc.Name() == "DeleteChange" || sc.Name() == "AddChange" || (sc.Pkg == f.Pkg && feedsCollector(sc, 0))
+				} else if m := c.Common().Method; m != nil {
+					feedsIt = m.Name() == "DeleteChange" || m.Name() == "AddChange"
+				}
+				if !feedsIt {
+					return
+				}
+				for _, a := range c.Common().Args {
+					a = through(a)
+					if arr, _, ok := loadOfIndex(a); ok && rootOf(arr) == src {
+						bad = c
+					}
+					if rootOf(a) == src { // the whole slice handed on
+						bad = c
+					}
+				}
+			})
+			where := ""
+			if bad != nil {
+				where = " (" + r.P.Pos(bad.Pos()) + ")"
+			}
+			r.Check(bad == nil, rule, o.next(fn(f)+"|dead list"), r.P.Pos(st.Pos()), "the nodes appended to the unreconciled dead list are not also filed with the change collector",
+				"nodes that go through the change collector"+where+" are also parked in deleteNodes, the dead list nothing reconciles: when a later transaction of the round re-creates one of them AddChange takes it out of the collector's dead set but GetDeletes still reports it from this list, and the prune deletes a node that a saved root uses")
+		})
+	}
+	if n < 1 {
+		r.Anchor(rule, fmt.Errorf("unresolved anchor: no append onto deleteNodes found"))
 	}
 }
